@@ -745,7 +745,7 @@ pub fn units(property: &'static str, thorough: bool, seed: u64, cost: bool) -> V
             u.push(exhaustive_unit::<IndexOptimized>(property, first, 9, sub.clone(), cost, 7));
         }
     }
-    let cases = if thorough { 20000 } else { 2000 };
+    let cases = if thorough { 30000 } else { 5000 };
     u.push(random_unit::<Stride>(property, cases, 2000, seed, cost));
     u.push(random_unit::<IndexOptimized>(property, cases, 2000, seed, cost));
     u.push(random_unit::<IL>(property, cases, 2000, seed, cost));
